@@ -282,3 +282,27 @@ pub(crate) fn credit_monitor_pair(limit: u32) -> (ChannelCreditMonitor, ChannelC
     let returner = ChannelCreditReturner { monitor: Arc::downgrade(&monitor.0), to_return: 0, return_fut: None };
     (monitor, returner)
 }
+
+// ===========================================================================
+// Verification hooks (cargo feature `verif`): read-only views of the counters
+// ===========================================================================
+
+#[cfg(feature = "verif")]
+impl CreditUser {
+    /// Credits currently available in the pool, or None if the multiplexer is gone.
+    pub(crate) fn verif_available(&self) -> Option<u32> {
+        self.channel.upgrade().map(|channel| channel.lock().unwrap().credits)
+    }
+}
+
+#[cfg(feature = "verif")]
+impl ChannelCreditReturner {
+    /// (used, limit) of the monitor if the multiplexer is alive, and credits queued for return.
+    pub(crate) fn verif_state(&self) -> (Option<(u32, u32)>, u32) {
+        let monitor = self.monitor.upgrade().map(|monitor| {
+            let monitor = monitor.lock().unwrap();
+            (monitor.used, monitor.limit)
+        });
+        (monitor, self.to_return)
+    }
+}
